@@ -24,7 +24,8 @@ LEVEL = 'exploration'
 TECHNIQUE = ('runtime monitoring: history checker -- recorded decode() '
              'outputs along call histories on one object vs a fresh-object '
              'reference; before/after digests of the caller\'s syndrome and '
-             'of the cached probability tables')
+             'of the cached probability tables; earlier results re-read after '
+             'later calls; sibling decoders interleaved on one code object')
 MANIFEST_TEXT = ('On tiny codes every ordered pair (previous syndrome, '
                  'syndrome) of valid syndromes is driven through one reused '
                  'decoder object and compared with fresh decoders; larger '
